@@ -141,6 +141,8 @@ class Tiny:
                     return ("octets", recv)
                 if isinstance(recv, Buf) and len(recv) == 0 and e.func.attr == "join" and len(e.args) == 1:
                     parts = self.ev(e.args[0])
+                    if isinstance(parts, list) and parts and all(isinstance(x, Buf) for x in parts):
+                        return Buf(0, sum(len(x) for x in parts))  # only the length of a concatenation is modelled
                     if isinstance(parts, list):
                         return ("joined", parts)
                 if isinstance(recv, Sym) and e.func.attr in recv.methods:
